@@ -1,9 +1,45 @@
-import Lean.Data.Json
-/-! Driver handlers for property C01: `handle op request` answers one JSON request. -/
+import PydjinniModel.Drv.C05
+import PydjinniModel.Gen.Deps
+/-! Driver handlers for property C01 (dependencies / includes of generated headers). -/
 namespace Pydjinni.Drv.C01
-open Lean
+open Lean Pydjinni.Front Pydjinni.Gen Pydjinni.Drv.FrontJson Pydjinni.Drv.C05
 
-def handle (op : String) (_req : Json) : Except String Json :=
-  throw s!"unknown op {op}"
+def anonKey (keys : List String) (sig : FnSig) : String := "<anon>:" ++ anonName keys sig
+
+def depKey (keys : List String) (reg : Registry) (d : DepRef) : String :=
+  match d.key with
+  | .named ns name => match lexicalLookup reg ns name with | some x => x.key | none => "?" ++ name
+  | .anon sig => anonKey keys sig
+
+def depsJ (keys : List String) (reg : Registry) (ds : List DepRef) : Json :=
+  Json.arr (ds.map (fun d => Json.mkObj [("k", depKey keys reg d), ("o", d.optional)])).toArray
+
+/-- every declaration of the program, named and anonymous (inline function types at any depth) -/
+def allUnits (keys : List String) (p : List ProgFile) : List (String × List String × List DepRef × List (List String × String)) :=
+  (progDecls p).flatMap (fun (_, ns, d) =>
+    let named := (declKey ns d, ns, depsOfDecl ns d, (writtenTypes d).flatMap (mentionsT ns))
+    let anons := ((match d with
+        | .function _ _ sig _ => fnNodesF sig
+        | _ => (topTypes d).flatMap fnNodesT)).map (fun sig =>
+          (anonKey keys sig, ns, depsOfSig ns sig, mentionsF ns sig))
+    named :: anons)
+
+def handle (op : String) (req : Json) : Except String Json :=
+  match op with
+  | "c01.deps" => do
+    let cfg ← req.getObjVal? "cfg" >>= decodeCfg
+    let files ← req.getObjValAs? (Array Json) "files"
+    let fs ← files.toList.mapM decodeFile
+    let bs ← req.getObjValAs? (Array Json) "builtins"
+    let builtins ← bs.toList.mapM decodeDef
+    match programOf fs with
+    | none => pure (Json.mkObj [("syntax", false)])
+    | some prog =>
+      let reg := progRegistry (builtins ++ extRegistry fs) prog
+      let units := allUnits cfg.keys prog
+      pure (Json.mkObj [("syntax", true), ("units", Json.arr (units.map (fun (k, _, ds, ms) =>
+        Json.mkObj [("key", k), ("deps", depsJ cfg.keys reg ds), ("needsOptional", ds.any (·.optional)),
+                    ("mentions", strsJ (ms.map (fun (ns, n) => match lexicalLookup reg ns n with | some x => x.key | none => "?" ++ n)))])).toArray)])
+  | _ => throw s!"unknown op {op}"
 
 end Pydjinni.Drv.C01
